@@ -277,6 +277,15 @@ pub enum Algo {
     ToposortDefaultSpace,
     HasPathDefaultSpace,
     DfsMoveTo,
+    FloydWarshallPath,
+    SccAlias,
+    TopoWithInitials,
+    DfsReversed,
+    BfsReversed,
+    DfsNodeFiltered,
+    DfsEdgeFiltered,
+    DfsPrune,
+    DfsBreak,
 }
 
 pub const ALL_ALGOS: &[Algo] = &[
@@ -323,6 +332,15 @@ pub const ALL_ALGOS: &[Algo] = &[
     Algo::ToposortDefaultSpace,
     Algo::HasPathDefaultSpace,
     Algo::DfsMoveTo,
+    Algo::FloydWarshallPath,
+    Algo::SccAlias,
+    Algo::TopoWithInitials,
+    Algo::DfsReversed,
+    Algo::BfsReversed,
+    Algo::DfsNodeFiltered,
+    Algo::DfsEdgeFiltered,
+    Algo::DfsPrune,
+    Algo::DfsBreak,
 ];
 
 impl Algo {
@@ -371,6 +389,15 @@ impl Algo {
             Algo::ToposortDefaultSpace => "toposort_default_space",
             Algo::HasPathDefaultSpace => "has_path_connecting_default_space",
             Algo::DfsMoveTo => "dfs_move_to_second_start",
+            Algo::FloydWarshallPath => "floyd_warshall_path",
+            Algo::SccAlias => "scc",
+            Algo::TopoWithInitials => "topo_with_initials",
+            Algo::DfsReversed => "dfs_over_reversed",
+            Algo::BfsReversed => "bfs_over_reversed",
+            Algo::DfsNodeFiltered => "dfs_over_node_filtered",
+            Algo::DfsEdgeFiltered => "dfs_over_edge_filtered",
+            Algo::DfsPrune => "depth_first_search_prune",
+            Algo::DfsBreak => "depth_first_search_break",
         }
     }
     /// Is the algorithm in its documented domain on this abstract graph?
@@ -378,8 +405,8 @@ impl Algo {
         let neg = a.has_negative();
         match self {
             Algo::Dijkstra | Algo::DijkstraGoal | Algo::Astar | Algo::KShortest | Algo::FordFulkerson => !neg,
-            Algo::BellmanFord | Algo::NegativeCycle | Algo::Spfa | Algo::FloydWarshall => true,
-            Algo::Topo | Algo::TopoDefaultReset | Algo::ToposortDefaultSpace | Algo::Toposort | Algo::ToposortSpace | Algo::IsCyclicDirected | Algo::Dominators | Algo::FeedbackArcSet | Algo::KosarajuScc | Algo::TarjanScc | Algo::TarjanSccReused => a.directed,
+            Algo::BellmanFord | Algo::NegativeCycle | Algo::Spfa | Algo::FloydWarshall | Algo::FloydWarshallPath => true,
+            Algo::Topo | Algo::TopoDefaultReset | Algo::ToposortDefaultSpace | Algo::Toposort | Algo::ToposortSpace | Algo::IsCyclicDirected | Algo::Dominators | Algo::FeedbackArcSet | Algo::KosarajuScc | Algo::TarjanScc | Algo::TarjanSccReused | Algo::SccAlias | Algo::TopoWithInitials | Algo::DfsReversed | Algo::BfsReversed | Algo::DfsPrune => a.directed,
             Algo::IsCyclicUndirected | Algo::Bipartite | Algo::ArticulationPoints | Algo::MaximalCliques | Algo::Dsatur | Algo::MstPrim | Algo::Graph6 => !a.directed,
             Algo::SimplePaths => a.simple && a.directed,
             Algo::PageRank => a.directed,
@@ -429,13 +456,16 @@ fn judge_inner(algo: Algo, a: &Abs, p: &Params, r0: &Res, ri: &Res) -> Result<()
         }
     };
     match algo {
-        Algo::Dfs | Algo::Bfs | Algo::DfsPostOrder | Algo::DepthFirstSearch | Algo::DfsDefaultReset | Algo::DfsPostOrderDefaultReset | Algo::DfsMoveTo => eq("visited set"),
-        Algo::Topo | Algo::TopoDefaultReset | Algo::Toposort | Algo::ToposortSpace | Algo::ToposortDefaultSpace => match (r0, ri) {
+        Algo::Dfs | Algo::Bfs | Algo::DfsPostOrder | Algo::DepthFirstSearch | Algo::DfsDefaultReset | Algo::DfsPostOrderDefaultReset | Algo::DfsMoveTo | Algo::DfsReversed | Algo::BfsReversed | Algo::DfsNodeFiltered | Algo::DfsEdgeFiltered => eq("visited set"),
+        Algo::DfsPrune => eq("discovered set / number of edge events"),
+        Algo::DfsBreak => eq("break value"),
+        Algo::Topo | Algo::TopoDefaultReset | Algo::TopoWithInitials | Algo::Toposort | Algo::ToposortSpace | Algo::ToposortDefaultSpace => match (r0, ri) {
             (Res::Seq(o0), Res::Seq(oi)) => {
-                if is_topo_order(a, o0).is_err() && algo != Algo::Topo && algo != Algo::TopoDefaultReset {
+                let walker = algo == Algo::Topo || algo == Algo::TopoDefaultReset || algo == Algo::TopoWithInitials;
+                if is_topo_order(a, o0).is_err() && !walker {
                     return Ok(()); // reference itself invalid: not this property's business
                 }
-                if algo == Algo::Topo || algo == Algo::TopoDefaultReset {
+                if walker {
                     // Topo emits the nodes not on or downstream of a cycle: same set, valid order among them
                     let (s0, si): (BTreeSet<usize>, BTreeSet<usize>) = (o0.iter().copied().collect(), oi.iter().copied().collect());
                     if s0 != si {
@@ -467,7 +497,7 @@ fn judge_inner(algo: Algo, a: &Abs, p: &Params, r0: &Res, ri: &Res) -> Result<()
             }
             _ => Err(format!("reference Graph returned {:?}, this encoding {:?}", brief(r0), brief(ri))),
         },
-        Algo::KosarajuScc | Algo::TarjanScc | Algo::TarjanSccReused => match (r0, ri) {
+        Algo::KosarajuScc | Algo::TarjanScc | Algo::TarjanSccReused | Algo::SccAlias => match (r0, ri) {
             (Res::Components(c0), Res::Components(ci)) => {
                 let (p0, pi): (BTreeSet<_>, BTreeSet<_>) = (c0.iter().cloned().collect(), ci.iter().cloned().collect());
                 if p0 != pi {
@@ -490,6 +520,45 @@ fn judge_inner(algo: Algo, a: &Abs, p: &Params, r0: &Res, ri: &Res) -> Result<()
         Algo::IsCyclicDirected | Algo::IsCyclicUndirected | Algo::HasPath | Algo::HasPathSpace | Algo::HasPathDefaultSpace | Algo::ConnectedComponents | Algo::Bipartite => eq("verdict"),
         Algo::Dominators => eq("immediate dominator map"),
         Algo::Dijkstra | Algo::KShortest | Algo::FloydWarshall | Algo::DijkstraGoal => eq("distance map"),
+        Algo::FloydWarshallPath => match (r0, ri) {
+            (Res::Tree(d0, _), Res::Tree(di, pred)) => {
+                if d0 != di {
+                    return Err(format!("distances differ: reference {:?}, this encoding {:?}", d0, di));
+                }
+                // `pred` carries, per ordered pair packed as s * n + t, the penultimate node
+                let n = a.n.max(1);
+                let dist: BTreeMap<usize, f64> = di.iter().copied().collect();
+                for &(st, pr) in pred {
+                    let (s_, t_) = (st / n, st % n);
+                    let d_st = dist[&st];
+                    match pr {
+                        None => {
+                            if d_st != f64::INFINITY {
+                                return Err(format!("no predecessor recorded for the connected pair {} -> {} (distance {})", s_, t_, d_st));
+                            }
+                        }
+                        Some(u) => {
+                            if s_ == t_ {
+                                if u != s_ {
+                                    return Err(format!("prev[{}][{}] = {}, documented to be the node itself", s_, s_, u));
+                                }
+                                continue;
+                            }
+                            if d_st == f64::INFINITY {
+                                return Err(format!("predecessor {} recorded for the unconnected pair {} -> {}", u, s_, t_));
+                            }
+                            let w = a.min_weight(u, t_).ok_or_else(|| format!("prev[{}][{}] = {} but {} -> {} is not an edge", s_, t_, u, u, t_))?;
+                            if dist[&(s_ * n + u)] + w != d_st {
+                                return Err(format!("prev[{}][{}] = {}: {} + {} != {}", s_, t_, u, dist[&(s_ * n + u)], w, d_st));
+                            }
+                        }
+                    }
+                }
+                Ok(())
+            }
+            (Res::Failed(_), Res::Failed(_)) => Ok(()),
+            _ => Err(format!("reference Graph returned {:?}, this encoding {:?}", brief(r0), brief(ri))),
+        },
         Algo::Astar => match (r0, ri) {
             (Res::Edges(c0, _), Res::Edges(ci, path)) => {
                 if c0 != ci {
@@ -721,6 +790,109 @@ macro_rules! run_algo {
         let mut space = algo::DfsSpace::default();
         Res::Bool(algo::has_path_connecting($g, $id($p.s), $id($p.t), Some(&mut space)))
     }};
+    (@ FloydWarshallPath, $g:expr, $id:expr, $lb:expr, $a:expr, $p:expr) => {{
+        use petgraph::visit::NodeIndexable;
+        match algo::floyd_warshall::floyd_warshall_path($g, |e| *e.weight()) {
+            Err(_) => Res::Failed("NegativeCycle".into()),
+            Ok((m, prev)) => {
+                let n = $a.n.max(1);
+                let mut d: Vec<(usize, f64)> = m.into_iter().map(|((x, y), c)| ($lb(x) * n + $lb(y), c)).collect();
+                d.sort_by(|x, y| x.0.cmp(&y.0));
+                let mut pr = Vec::new();
+                for s_ in 0..$a.n {
+                    for t_ in 0..$a.n {
+                        let (i, j) = (NodeIndexable::to_index(&$g, $id(s_)), NodeIndexable::to_index(&$g, $id(t_)));
+                        pr.push((s_ * n + t_, prev[i][j].map(|k| $lb(NodeIndexable::from_index(&$g, k)))));
+                    }
+                }
+                Res::Tree(d, pr)
+            }
+        }
+    }};
+    (@ SccAlias, $g:expr, $id:expr, $lb:expr, $a:expr, $p:expr) => {{
+        #[allow(deprecated)]
+        let c = algo::scc($g);
+        Res::Components(c.into_iter().map(|c| c.into_iter().map(|x| $lb(x)).collect()).collect())
+    }};
+    (@ TopoWithInitials, $g:expr, $id:expr, $lb:expr, $a:expr, $p:expr) => {{
+        let initials: Vec<_> = (0..$a.n).filter(|l| l % 2 == $p.k % 2 || *l == $p.s).map(|l| $id(l)).collect();
+        let mut t = Topo::with_initials($g, initials);
+        let mut order = Vec::new();
+        while let Some(x) = t.next($g) { order.push($lb(x)); if order.len() > 10_000 { break; } }
+        Res::Seq(order)
+    }};
+    (@ DfsReversed, $g:expr, $id:expr, $lb:expr, $a:expr, $p:expr) => {{
+        use petgraph::visit::Reversed;
+        let mut seen = BTreeSet::new();
+        let r = Reversed($g);
+        let mut dfs = Dfs::new(r, $id($p.s));
+        let mut dup = false;
+        while let Some(x) = dfs.next(r) { if !seen.insert($lb(x)) { dup = true; } }
+        if dup { Res::Failed("a node was emitted twice".into()) } else { Res::Set(seen) }
+    }};
+    (@ BfsReversed, $g:expr, $id:expr, $lb:expr, $a:expr, $p:expr) => {{
+        use petgraph::visit::Reversed;
+        let mut seen = BTreeSet::new();
+        let r = Reversed($g);
+        let mut bfs = Bfs::new(r, $id($p.s));
+        let mut dup = false;
+        while let Some(x) = bfs.next(r) { if !seen.insert($lb(x)) { dup = true; } }
+        if dup { Res::Failed("a node was emitted twice".into()) } else { Res::Set(seen) }
+    }};
+    (@ DfsNodeFiltered, $g:expr, $id:expr, $lb:expr, $a:expr, $p:expr) => {{
+        use petgraph::visit::NodeFiltered;
+        let (s_, k_) = ($p.s, $p.k);
+        let nf = NodeFiltered::from_fn($g, |n| { let l = $lb(n); l == s_ || l % 3 != k_ % 3 });
+        let mut seen = BTreeSet::new();
+        let mut dfs = Dfs::new(&nf, $id($p.s));
+        let mut dup = false;
+        while let Some(x) = dfs.next(&nf) { if !seen.insert($lb(x)) { dup = true; } }
+        if dup { Res::Failed("a node was emitted twice".into()) } else { Res::Set(seen) }
+    }};
+    (@ DfsEdgeFiltered, $g:expr, $id:expr, $lb:expr, $a:expr, $p:expr) => {{
+        use petgraph::visit::EdgeFiltered;
+        let k_ = $p.k as f64;
+        let ef = EdgeFiltered::from_fn($g, |e| *e.weight() != k_ && *e.weight() != k_ + 1.0);
+        let mut seen = BTreeSet::new();
+        let mut dfs = Dfs::new(&ef, $id($p.s));
+        let mut dup = false;
+        while let Some(x) = dfs.next(&ef) { if !seen.insert($lb(x)) { dup = true; } }
+        if dup { Res::Failed("a node was emitted twice".into()) } else { Res::Set(seen) }
+    }};
+    (@ DfsPrune, $g:expr, $id:expr, $lb:expr, $a:expr, $p:expr) => {{
+        // prune at t: nothing beyond t is explored through t; every out-edge of a discovered,
+        // unpruned node is reported exactly once
+        use petgraph::visit::{depth_first_search, DfsEvent, Control};
+        let mut seen = BTreeSet::new();
+        let (mut finished, mut edge_events) = (0usize, 0usize);
+        let t_ = $p.t;
+        depth_first_search($g, Some($id($p.s)), |ev| {
+            match ev {
+                DfsEvent::Discover(n, _) => { seen.insert($lb(n)); if $lb(n) == t_ { return Control::<()>::Prune; } }
+                DfsEvent::Finish(_, _) => { finished += 1; }
+                DfsEvent::TreeEdge(..) | DfsEvent::BackEdge(..) | DfsEvent::CrossForwardEdge(..) => { edge_events += 1; }
+            }
+            Control::Continue
+        });
+        if finished != seen.len() { Res::Failed(format!("{} Discover but {} Finish events", seen.len(), finished)) } else { Res::Text(format!("{:?} {}", seen, edge_events)) }
+    }};
+    (@ DfsBreak, $g:expr, $id:expr, $lb:expr, $a:expr, $p:expr) => {{
+        use petgraph::visit::{depth_first_search, DfsEvent, Control};
+        let t_ = $p.t;
+        let r = depth_first_search($g, Some($id($p.s)), |ev| {
+            if let DfsEvent::Discover(n, _) = ev { if $lb(n) == t_ { return Control::Break($lb(n)); } }
+            Control::Continue
+        });
+        let unit = depth_first_search($g, Some($id($p.s)), |ev| {
+            if let DfsEvent::Discover(n, _) = ev { if $lb(n) == t_ { return Control::<()>::breaking(); } }
+            Control::Continue
+        });
+        match (r.break_value(), unit.break_value()) {
+            (Some(v), Some(())) => Res::Num(v as i64),
+            (None, None) => Res::Num(-1),
+            (x, y) => Res::Failed(format!("Break(value) run gives {:?}, breaking() run gives {:?}", x, y)),
+        }
+    }};
     (@ Topo, $g:expr, $id:expr, $lb:expr, $a:expr, $p:expr) => {{
         let order: Vec<usize> = Topo::new($g).iter($g).map(|x| $lb(x)).collect();
         Res::Seq(order)
@@ -779,6 +951,28 @@ macro_rules! run_algo {
         for l in 0..$a.n {
             if let Some(i) = d.immediate_dominator($id(l)) { v.push((l, $lb(i))); }
         }
+        // the three iterators must spell out the same tree as immediate_dominator()
+        let idom: BTreeMap<usize, usize> = v.iter().copied().collect();
+        let mut bad: Option<String> = None;
+        for l in 0..$a.n {
+            let reachable = l == $p.s || idom.contains_key(&l);
+            let mut chain = vec![l];
+            let mut cur = l;
+            while let Some(&u) = idom.get(&cur) { if u == cur || chain.len() > $a.n { break; } chain.push(u); cur = u; }
+            let doms: Option<Vec<usize>> = d.dominators($id(l)).map(|it| it.map(|x| $lb(x)).collect());
+            let sdoms: Option<Vec<usize>> = d.strict_dominators($id(l)).map(|it| it.map(|x| $lb(x)).collect());
+            if reachable {
+                if doms.as_ref() != Some(&chain) { bad = Some(format!("dominators({}) = {:?}, the immediate-dominator chain is {:?}", l, doms, chain)); }
+                if sdoms.as_deref() != Some(&chain[1..]) { bad = Some(format!("strict_dominators({}) = {:?}, the immediate-dominator chain is {:?}", l, sdoms, &chain[1..])); }
+            } else if doms.is_some() || sdoms.is_some() {
+                bad = Some(format!("dominators({}) = {:?} / strict {:?} for a node the root does not reach", l, doms, sdoms));
+            }
+            let mut kids: Vec<usize> = d.immediately_dominated_by($id(l)).map(|x| $lb(x)).collect();
+            kids.sort();
+            let exp: Vec<usize> = idom.iter().filter(|(&c, &u)| u == l && c != l).map(|(&c, _)| c).collect();
+            if kids != exp { bad = Some(format!("immediately_dominated_by({}) = {:?}, immediate_dominator() says {:?}", l, kids, exp)); }
+        }
+        if let Some(b) = bad { Res::Failed(b) } else
         if $lb(d.root()) != $p.s { Res::Failed("root() is not the requested root".into()) } else { Res::LabelMap(v) }
     }};
     (@ Dijkstra, $g:expr, $id:expr, $lb:expr, $a:expr, $p:expr) => {{
@@ -885,12 +1079,56 @@ macro_rules! run_algo {
         let m = algo::greedy_matching($g);
         let mut v = Vec::new();
         for l in 0..$a.n { if let Some(x) = m.mate($id(l)) { v.push((l, $lb(x))); } }
+        // every accessor of Matching must describe the same set of pairs as mate()
+        let mates: BTreeMap<usize, usize> = v.iter().copied().collect();
+        let mut bad: Option<String> = None;
+        let mut en: Vec<(usize, usize)> = m.edges().map(|(x, y)| { let (x, y) = ($lb(x), $lb(y)); (x.min(y), x.max(y)) }).collect();
+        en.sort();
+        let mut exp_e: Vec<(usize, usize)> = mates.iter().filter(|(&x, &y)| x < y).map(|(&x, &y)| (x, y)).collect();
+        exp_e.sort();
+        if en != exp_e { bad = Some(format!("edges() = {:?} but mate() pairs are {:?}", en, exp_e)); }
+        let mut nn: Vec<usize> = m.nodes().map(|x| $lb(x)).collect();
+        nn.sort();
+        let exp_n: Vec<usize> = mates.keys().copied().collect();
+        if nn != exp_n { bad = Some(format!("nodes() = {:?} but mate() is defined on {:?}", nn, exp_n)); }
+        for l in 0..$a.n {
+            if m.contains_node($id(l)) != mates.contains_key(&l) { bad = Some(format!("contains_node({}) = {} but mate() = {:?}", l, m.contains_node($id(l)), mates.get(&l))); }
+            for l2 in 0..$a.n {
+                let exp = mates.get(&l) == Some(&l2);
+                if m.contains_edge($id(l), $id(l2)) != exp { bad = Some(format!("contains_edge({}, {}) = {} but mate({}) = {:?}", l, l2, !exp, l, mates.get(&l))); }
+            }
+        }
+        if m.is_empty() != mates.is_empty() { bad = Some(format!("is_empty() = {} with mates {:?}", m.is_empty(), mates)); }
+        if m.is_perfect() != (mates.len() == $a.n) { bad = Some(format!("is_perfect() = {} with {} of {} nodes matched", m.is_perfect(), mates.len(), $a.n)); }
+        if let Some(b) = bad { Res::Failed(b) } else
         if m.len() * 2 != v.len() { Res::Failed(format!("len() = {} but {} nodes have a mate", m.len(), v.len())) } else { Res::LabelMap(v) }
     }};
     (@ MaximumMatching, $g:expr, $id:expr, $lb:expr, $a:expr, $p:expr) => {{
         let m = algo::maximum_matching($g);
         let mut v = Vec::new();
         for l in 0..$a.n { if let Some(x) = m.mate($id(l)) { v.push((l, $lb(x))); } }
+        // every accessor of Matching must describe the same set of pairs as mate()
+        let mates: BTreeMap<usize, usize> = v.iter().copied().collect();
+        let mut bad: Option<String> = None;
+        let mut en: Vec<(usize, usize)> = m.edges().map(|(x, y)| { let (x, y) = ($lb(x), $lb(y)); (x.min(y), x.max(y)) }).collect();
+        en.sort();
+        let mut exp_e: Vec<(usize, usize)> = mates.iter().filter(|(&x, &y)| x < y).map(|(&x, &y)| (x, y)).collect();
+        exp_e.sort();
+        if en != exp_e { bad = Some(format!("edges() = {:?} but mate() pairs are {:?}", en, exp_e)); }
+        let mut nn: Vec<usize> = m.nodes().map(|x| $lb(x)).collect();
+        nn.sort();
+        let exp_n: Vec<usize> = mates.keys().copied().collect();
+        if nn != exp_n { bad = Some(format!("nodes() = {:?} but mate() is defined on {:?}", nn, exp_n)); }
+        for l in 0..$a.n {
+            if m.contains_node($id(l)) != mates.contains_key(&l) { bad = Some(format!("contains_node({}) = {} but mate() = {:?}", l, m.contains_node($id(l)), mates.get(&l))); }
+            for l2 in 0..$a.n {
+                let exp = mates.get(&l) == Some(&l2);
+                if m.contains_edge($id(l), $id(l2)) != exp { bad = Some(format!("contains_edge({}, {}) = {} but mate({}) = {:?}", l, l2, !exp, l, mates.get(&l))); }
+            }
+        }
+        if m.is_empty() != mates.is_empty() { bad = Some(format!("is_empty() = {} with mates {:?}", m.is_empty(), mates)); }
+        if m.is_perfect() != (mates.len() == $a.n) { bad = Some(format!("is_perfect() = {} with {} of {} nodes matched", m.is_perfect(), mates.len(), $a.n)); }
+        if let Some(b) = bad { Res::Failed(b) } else
         if m.len() * 2 != v.len() { Res::Failed(format!("len() = {} but {} nodes have a mate", m.len(), v.len())) } else { Res::LabelMap(v) }
     }};
     (@ FordFulkerson, $g:expr, $id:expr, $lb:expr, $a:expr, $p:expr) => {{
@@ -1577,16 +1815,16 @@ fn extras<Ty: EdgeType + Clone + 'static>(
 }
 
 impl_replica_set!(Directed,
-    graph: [DfsDefaultReset, DfsPostOrderDefaultReset, DfsMoveTo, HasPathDefaultSpace, TopoDefaultReset, ToposortDefaultSpace, Dfs, Bfs, DfsPostOrder, DepthFirstSearch, Topo, Toposort, ToposortSpace, KosarajuScc, TarjanScc, TarjanSccReused, IsCyclicDirected, HasPath, HasPathSpace, ConnectedComponents, Dominators, Dijkstra, DijkstraGoal, Astar, KShortest, BellmanFord, NegativeCycle, Spfa, FloydWarshall, Mst, GreedyMatching, MaximumMatching, FordFulkerson, PageRank, FeedbackArcSet, SimplePaths],
-    stable: [DfsDefaultReset, DfsPostOrderDefaultReset, DfsMoveTo, HasPathDefaultSpace, TopoDefaultReset, ToposortDefaultSpace, Dfs, Bfs, DfsPostOrder, DepthFirstSearch, Topo, Toposort, ToposortSpace, KosarajuScc, TarjanScc, TarjanSccReused, IsCyclicDirected, HasPath, HasPathSpace, Dominators, Dijkstra, DijkstraGoal, Astar, KShortest, BellmanFord, NegativeCycle, Spfa, Mst, GreedyMatching, MaximumMatching, FordFulkerson, PageRank, FeedbackArcSet, SimplePaths],
-    matrix: [DfsDefaultReset, DfsPostOrderDefaultReset, DfsMoveTo, HasPathDefaultSpace, TopoDefaultReset, ToposortDefaultSpace, Dfs, Bfs, DfsPostOrder, DepthFirstSearch, Topo, Toposort, ToposortSpace, KosarajuScc, TarjanScc, TarjanSccReused, IsCyclicDirected, HasPath, HasPathSpace, Dominators, Dijkstra, DijkstraGoal, Astar, KShortest, BellmanFord, NegativeCycle, Spfa, Mst, GreedyMatching, MaximumMatching, PageRank, FeedbackArcSet, SimplePaths],
-    gmap: [DfsDefaultReset, DfsPostOrderDefaultReset, DfsMoveTo, HasPathDefaultSpace, TopoDefaultReset, ToposortDefaultSpace, Dfs, Bfs, DfsPostOrder, DepthFirstSearch, Topo, Toposort, ToposortSpace, KosarajuScc, TarjanScc, TarjanSccReused, IsCyclicDirected, HasPath, HasPathSpace, ConnectedComponents, Dominators, Dijkstra, DijkstraGoal, Astar, KShortest, BellmanFord, NegativeCycle, Spfa, FloydWarshall, Mst, GreedyMatching, MaximumMatching, PageRank, SimplePaths],
-    csr: [DfsDefaultReset, DfsPostOrderDefaultReset, DfsMoveTo, HasPathDefaultSpace, Dfs, Bfs, DfsPostOrder, DepthFirstSearch, TarjanScc, TarjanSccReused, IsCyclicDirected, HasPath, HasPathSpace, ConnectedComponents, Dominators, Dijkstra, DijkstraGoal, Astar, KShortest, BellmanFord, NegativeCycle, Spfa, FloydWarshall, Mst, GreedyMatching, MaximumMatching, PageRank],
-    list: [DfsDefaultReset, DfsPostOrderDefaultReset, DfsMoveTo, HasPathDefaultSpace, Dfs, Bfs, DfsPostOrder, DepthFirstSearch, TarjanScc, TarjanSccReused, IsCyclicDirected, HasPath, HasPathSpace, ConnectedComponents, Dominators, Dijkstra, DijkstraGoal, Astar, KShortest, BellmanFord, NegativeCycle, Spfa, FloydWarshall, Mst, GreedyMatching, MaximumMatching, PageRank]);
+    graph: [DfsDefaultReset, DfsPostOrderDefaultReset, DfsMoveTo, HasPathDefaultSpace, TopoDefaultReset, ToposortDefaultSpace, Dfs, Bfs, DfsPostOrder, DepthFirstSearch, Topo, Toposort, ToposortSpace, KosarajuScc, TarjanScc, TarjanSccReused, IsCyclicDirected, HasPath, HasPathSpace, ConnectedComponents, Dominators, Dijkstra, DijkstraGoal, Astar, KShortest, BellmanFord, NegativeCycle, Spfa, FloydWarshall, Mst, GreedyMatching, MaximumMatching, FordFulkerson, PageRank, FeedbackArcSet, SimplePaths, DfsNodeFiltered, DfsEdgeFiltered, DfsBreak, FloydWarshallPath, SccAlias, TopoWithInitials, DfsReversed, BfsReversed, DfsPrune],
+    stable: [DfsDefaultReset, DfsPostOrderDefaultReset, DfsMoveTo, HasPathDefaultSpace, TopoDefaultReset, ToposortDefaultSpace, Dfs, Bfs, DfsPostOrder, DepthFirstSearch, Topo, Toposort, ToposortSpace, KosarajuScc, TarjanScc, TarjanSccReused, IsCyclicDirected, HasPath, HasPathSpace, Dominators, Dijkstra, DijkstraGoal, Astar, KShortest, BellmanFord, NegativeCycle, Spfa, Mst, GreedyMatching, MaximumMatching, FordFulkerson, PageRank, FeedbackArcSet, SimplePaths, DfsNodeFiltered, DfsEdgeFiltered, DfsBreak, SccAlias, TopoWithInitials, DfsReversed, BfsReversed, DfsPrune],
+    matrix: [DfsDefaultReset, DfsPostOrderDefaultReset, DfsMoveTo, HasPathDefaultSpace, TopoDefaultReset, ToposortDefaultSpace, Dfs, Bfs, DfsPostOrder, DepthFirstSearch, Topo, Toposort, ToposortSpace, KosarajuScc, TarjanScc, TarjanSccReused, IsCyclicDirected, HasPath, HasPathSpace, Dominators, Dijkstra, DijkstraGoal, Astar, KShortest, BellmanFord, NegativeCycle, Spfa, Mst, GreedyMatching, MaximumMatching, PageRank, FeedbackArcSet, SimplePaths, DfsNodeFiltered, DfsEdgeFiltered, DfsBreak, SccAlias, TopoWithInitials, DfsReversed, BfsReversed, DfsPrune],
+    gmap: [DfsDefaultReset, DfsPostOrderDefaultReset, DfsMoveTo, HasPathDefaultSpace, TopoDefaultReset, ToposortDefaultSpace, Dfs, Bfs, DfsPostOrder, DepthFirstSearch, Topo, Toposort, ToposortSpace, KosarajuScc, TarjanScc, TarjanSccReused, IsCyclicDirected, HasPath, HasPathSpace, ConnectedComponents, Dominators, Dijkstra, DijkstraGoal, Astar, KShortest, BellmanFord, NegativeCycle, Spfa, FloydWarshall, Mst, GreedyMatching, MaximumMatching, PageRank, SimplePaths, DfsNodeFiltered, DfsEdgeFiltered, DfsBreak, FloydWarshallPath, SccAlias, TopoWithInitials, DfsReversed, BfsReversed, DfsPrune],
+    csr: [DfsDefaultReset, DfsPostOrderDefaultReset, DfsMoveTo, HasPathDefaultSpace, Dfs, Bfs, DfsPostOrder, DepthFirstSearch, TarjanScc, TarjanSccReused, IsCyclicDirected, HasPath, HasPathSpace, ConnectedComponents, Dominators, Dijkstra, DijkstraGoal, Astar, KShortest, BellmanFord, NegativeCycle, Spfa, FloydWarshall, Mst, GreedyMatching, MaximumMatching, PageRank, DfsNodeFiltered, DfsEdgeFiltered, DfsBreak, FloydWarshallPath, DfsPrune],
+    list: [DfsDefaultReset, DfsPostOrderDefaultReset, DfsMoveTo, HasPathDefaultSpace, Dfs, Bfs, DfsPostOrder, DepthFirstSearch, TarjanScc, TarjanSccReused, IsCyclicDirected, HasPath, HasPathSpace, ConnectedComponents, Dominators, Dijkstra, DijkstraGoal, Astar, KShortest, BellmanFord, NegativeCycle, Spfa, FloydWarshall, Mst, GreedyMatching, MaximumMatching, PageRank, DfsNodeFiltered, DfsEdgeFiltered, DfsBreak, FloydWarshallPath, DfsPrune]);
 impl_replica_set!(Undirected,
-    graph: [DfsDefaultReset, DfsPostOrderDefaultReset, DfsMoveTo, HasPathDefaultSpace, Dfs, Bfs, DfsPostOrder, DepthFirstSearch, IsCyclicUndirected, HasPath, HasPathSpace, ConnectedComponents, Bipartite, Dijkstra, DijkstraGoal, Astar, KShortest, BellmanFord, NegativeCycle, Spfa, FloydWarshall, Mst, MstPrim, GreedyMatching, MaximumMatching, ArticulationPoints, Dsatur, MaximalCliques, Graph6],
-    stable: [DfsDefaultReset, DfsPostOrderDefaultReset, DfsMoveTo, HasPathDefaultSpace, Dfs, Bfs, DfsPostOrder, DepthFirstSearch, IsCyclicUndirected, HasPath, HasPathSpace, Bipartite, Dijkstra, DijkstraGoal, Astar, KShortest, BellmanFord, NegativeCycle, Spfa, Mst, MstPrim, GreedyMatching, MaximumMatching, ArticulationPoints, Dsatur, MaximalCliques, Graph6],
-    matrix: [DfsDefaultReset, DfsPostOrderDefaultReset, DfsMoveTo, HasPathDefaultSpace, Dfs, Bfs, DfsPostOrder, DepthFirstSearch, IsCyclicUndirected, HasPath, HasPathSpace, Bipartite, Dijkstra, DijkstraGoal, Astar, KShortest, BellmanFord, NegativeCycle, Spfa, Mst, MstPrim, GreedyMatching, MaximumMatching, ArticulationPoints, Dsatur, MaximalCliques, Graph6],
-    gmap: [DfsDefaultReset, DfsPostOrderDefaultReset, DfsMoveTo, HasPathDefaultSpace, Dfs, Bfs, DfsPostOrder, DepthFirstSearch, IsCyclicUndirected, HasPath, HasPathSpace, ConnectedComponents, Bipartite, Dijkstra, DijkstraGoal, Astar, KShortest, BellmanFord, NegativeCycle, Spfa, FloydWarshall, Mst, MstPrim, GreedyMatching, MaximumMatching, ArticulationPoints, Dsatur, MaximalCliques, Graph6],
-    csr: [DfsDefaultReset, DfsPostOrderDefaultReset, DfsMoveTo, HasPathDefaultSpace, Dfs, Bfs, DfsPostOrder, DepthFirstSearch, IsCyclicUndirected, HasPath, HasPathSpace, ConnectedComponents, Bipartite, Dijkstra, DijkstraGoal, Astar, KShortest, BellmanFord, NegativeCycle, Spfa, FloydWarshall, Mst, MstPrim, GreedyMatching, MaximumMatching, ArticulationPoints, Dsatur, MaximalCliques, Graph6],
+    graph: [DfsDefaultReset, DfsPostOrderDefaultReset, DfsMoveTo, HasPathDefaultSpace, Dfs, Bfs, DfsPostOrder, DepthFirstSearch, IsCyclicUndirected, HasPath, HasPathSpace, ConnectedComponents, Bipartite, Dijkstra, DijkstraGoal, Astar, KShortest, BellmanFord, NegativeCycle, Spfa, FloydWarshall, Mst, MstPrim, GreedyMatching, MaximumMatching, ArticulationPoints, Dsatur, MaximalCliques, Graph6, DfsNodeFiltered, DfsEdgeFiltered, DfsBreak, FloydWarshallPath],
+    stable: [DfsDefaultReset, DfsPostOrderDefaultReset, DfsMoveTo, HasPathDefaultSpace, Dfs, Bfs, DfsPostOrder, DepthFirstSearch, IsCyclicUndirected, HasPath, HasPathSpace, Bipartite, Dijkstra, DijkstraGoal, Astar, KShortest, BellmanFord, NegativeCycle, Spfa, Mst, MstPrim, GreedyMatching, MaximumMatching, ArticulationPoints, Dsatur, MaximalCliques, Graph6, DfsNodeFiltered, DfsEdgeFiltered, DfsBreak],
+    matrix: [DfsDefaultReset, DfsPostOrderDefaultReset, DfsMoveTo, HasPathDefaultSpace, Dfs, Bfs, DfsPostOrder, DepthFirstSearch, IsCyclicUndirected, HasPath, HasPathSpace, Bipartite, Dijkstra, DijkstraGoal, Astar, KShortest, BellmanFord, NegativeCycle, Spfa, Mst, MstPrim, GreedyMatching, MaximumMatching, ArticulationPoints, Dsatur, MaximalCliques, Graph6, DfsNodeFiltered, DfsEdgeFiltered, DfsBreak],
+    gmap: [DfsDefaultReset, DfsPostOrderDefaultReset, DfsMoveTo, HasPathDefaultSpace, Dfs, Bfs, DfsPostOrder, DepthFirstSearch, IsCyclicUndirected, HasPath, HasPathSpace, ConnectedComponents, Bipartite, Dijkstra, DijkstraGoal, Astar, KShortest, BellmanFord, NegativeCycle, Spfa, FloydWarshall, Mst, MstPrim, GreedyMatching, MaximumMatching, ArticulationPoints, Dsatur, MaximalCliques, Graph6, DfsNodeFiltered, DfsEdgeFiltered, DfsBreak, FloydWarshallPath],
+    csr: [DfsDefaultReset, DfsPostOrderDefaultReset, DfsMoveTo, HasPathDefaultSpace, Dfs, Bfs, DfsPostOrder, DepthFirstSearch, IsCyclicUndirected, HasPath, HasPathSpace, ConnectedComponents, Bipartite, Dijkstra, DijkstraGoal, Astar, KShortest, BellmanFord, NegativeCycle, Spfa, FloydWarshall, Mst, MstPrim, GreedyMatching, MaximumMatching, ArticulationPoints, Dsatur, MaximalCliques, Graph6, DfsNodeFiltered, DfsEdgeFiltered, DfsBreak, FloydWarshallPath],
     list: [Dfs]);
